@@ -234,7 +234,7 @@ struct Gen {
             tid id = 0;
             switch (fam) {
             case ID_SMALL:
-                id = 1 + r.below(400);
+                id = r.below(400); // 0 is a legal custom id
                 break;
             case ID_RANDOM:
                 id = r.next();
@@ -249,7 +249,9 @@ struct Gen {
                 id = sbase + stride * r.below(512);
                 break;
             }
-            if (id == 0 || id == ~(tid)0 || id == OBJ_STATIC || id == NONOBJ)
+            if (fam != ID_SMALL && r.chance(0.02))
+                id = 0;
+            if (id == ~(tid)0 || id == OBJ_STATIC || id == NONOBJ)
                 continue;
             if (!used.insert(id).second)
                 continue;
@@ -951,6 +953,26 @@ Plan gen_C02(std::uint64_t seed, int tier) {
     o.max_meth = 3;
     Plan p = gen_basic("C02", seed, tier, o);
     p.profile = "errors" + p.profile.substr(5);
+    // the handler throws out of the same erroring call many times in a row:
+    // nothing may accumulate ("later calls still dispatch correctly")
+    if (r.chance(0.35)) {
+        Gen g(seed ^ 0xAB1, tier);
+        g.p = p;
+        Registry reg = full_registry(p, 0);
+        Lattice L = make_lattice(p, reg);
+        if (!reg.methods.empty()) {
+            int mi = reg.methods[r.below(reg.methods.size())];
+            std::vector<int> tuple;
+            if (find_tuple(g, reg, L, mi, true, tuple)) {
+                Event e = make_call(g, 0, mi, tuple);
+                e.repeat = r.range(20, 70);
+                p.events.push_back(e);
+                std::vector<int> good;
+                if (find_tuple(g, reg, L, mi, false, good))
+                    p.events.push_back(make_call(g, 0, mi, good));
+            }
+        }
+    }
     // fault: the handler returns (or is the shipped default) -> abort
     if (p.pols[0] != "thr" && r.chance(0.12)) {
         Gen g(seed ^ 0xAB0, tier);
